@@ -28,7 +28,7 @@ def one(algorithm, data, reply_type, sig):
     body = bytes([reply_type]) + struct.pack(">I", len(sig)) + sig
     agent._conn = Conn(struct.pack(">I", len(body)) + body)
     blob = Message()
-    blob.add_string("ssh-rsa")
+    blob.add_string("x-unknown-key-type")
     blob.add_bytes(b"fake-key-material")
     key = AgentKey(agent, blob.asbytes())
     why = []
